@@ -42,9 +42,20 @@ class TFn(Fn):
     def is_static(self, e): return self.kind(e) == "static"
 
     def is_str(self, e):
-        if self.kind(e) in ("str", "strlike", "static"): return True
+        """Is e THE string argument?  One evaluation of `<param>.as_ref()` only (see lower_rodeo.RFn.is_str)."""
+        k = self.kind(e)
+        if k in ("str", "static"): return True
         e = strip(e)
-        return e[0] == "mcall" and e[3] == "as_ref" and not e[4] and self.kind(e[2]) == "strlike"
+        if k == "strlike": self.evaluates_as_ref(e); return True
+        if e[0] == "mcall" and e[3] == "as_ref" and not e[4] and self.kind(e[2]) == "strlike":
+            self.evaluates_as_ref(e); return True
+        return False
+
+    def evaluates_as_ref(self, node):
+        seen = self.env.setdefault("as_ref_nodes", {})
+        seen[id(node)] = node
+        if len(seen) > 1:
+            self.lost(node, "as_ref() evaluated more than once: `T: AsRef<str>` need not return the same string again")
 
     def map_hasher(self, e):
         e = strip(e)
@@ -380,6 +391,7 @@ def run(repo, out):
         parts = []
         for name, gen, params, ret, rk, kinds in METHODS:
             f = unique(name, params, ret)
+            env["as_ref_nodes"] = {}
             fnl = TFn(rk, known, env)
             ps = []
             for (p, _t), kd in zip([x for x in f[4] if x[0] != "self"], kinds):
